@@ -54,7 +54,7 @@ func xzWriteExec(p XZWCase, data []byte) (sink []byte, calls []callRes, verr err
 	}
 	var sb sinkBuf
 	pan = core.Guard(func() {
-		w, err := p.Cfg.build().NewWriter(&sb)
+		w, err := p.Cfg.open(&sb)
 		calls = append(calls, callRes{Call: "NewWriter", Err: err, Sink: len(sb.b)})
 		if err != nil {
 			return
